@@ -1340,6 +1340,9 @@ class Mesh:
         if isinstance(nodes, (int, np.integer)):
             return np.array([nodes])
         if isinstance(nodes, ndarray):
+            if nodes.dtype == bool:
+                # a mask of the nodes
+                return np.nonzero(nodes)[0].astype(np.int32)
             # assumed an array of nodes
             return nodes
         elif isinstance(nodes, (list, set)):
@@ -1370,6 +1373,10 @@ class Mesh:
             # normalize_facets(np.array([1,2,3]))
             return np.array([facets])
         if isinstance(facets, ndarray):
+            if facets.dtype == bool and not isinstance(facets,
+                                                       OrientedBoundary):
+                # a mask of the facets
+                return np.nonzero(facets)[0].astype(np.int32)
             # Assume the facets have already been normalized
             return facets
         if facets is None:
@@ -1397,7 +1404,9 @@ class Mesh:
             # Assume string is the label of a boundary in the mesh.
             if ((self.boundaries is not None
                  and facets in self.boundaries)):
-                return self.boundaries[facets]
+                # (a tag may hold a mask or a list)
+                return self.normalize_facets(
+                    np.asanyarray(self.boundaries[facets]))
             else:
                 raise ValueError("Boundary '{}' not found.".format(facets))
         raise NotImplementedError
@@ -1419,6 +1428,9 @@ class Mesh:
             # normalize_elements(np.array([1,2,3]))
             return np.array([elements])
         if isinstance(elements, ndarray):
+            if elements.dtype == bool:
+                # a mask of the elements
+                return np.nonzero(elements)[0].astype(np.int32)
             # Assume the elements have already been normalized
             return elements
         if callable(elements):
@@ -1438,7 +1450,9 @@ class Mesh:
             # Assume string is the label of a subdomain in the mesh.
             if ((self.subdomains is not None
                  and elements in self.subdomains)):
-                return self.subdomains[elements]
+                # (a tag may hold a mask or a list)
+                return self.normalize_elements(
+                    np.asarray(self.subdomains[elements]))
             else:
                 raise ValueError("Subdomain '{}' not found.".format(elements))
         raise NotImplementedError
